@@ -27,7 +27,7 @@ idea = ("anything realistic that breaks the property as stated - choose yourself
         "configurations that the already-tried ideas below did not touch (other proxy types, other options, other termination "
         "or error paths). Prefer a bug that needs a particular interleaving of two goroutines or of two peers' messages, a "
         "connection loss / timeout / error at a particular point, a multi-step sequence of operations, or two cooperating "
-        "sites that each look fine alone. Do not put the bug into KCP- or QUIC-specific code.")
+        "sites that each look fine alone. Do not put the bug into KCP-specific code.")
 if hint:
     idea += " " + hint
 prompt = f"""You are helping to evaluate a verification system for the Go project fatedier/frp (a reverse proxy/tunnel: frps server, frpc client). Your job is to play the role of a developer who introduces a realistic, subtle BUG.
